@@ -9,16 +9,16 @@ import (
 	"strings"
 )
 
-var c15enc = []string{"", "gzip", "deflate", "br"}
-var c15ct = []string{"", "text/plain", "application/x-www-form-urlencoded", "image/png", "multipart/form-data; boundary=b"}
+var zzc15enc = []string{"", "gzip", "deflate", "br"}
+var zzc15ct = []string{"", "text/plain", "application/x-www-form-urlencoded", "image/png", "multipart/form-data; boundary=b"}
 
 // VerifC15HAR: attaching the HAR logger leaves request and response as they
 // were (for every capture option), and an exchange marked skip-logging is not recorded.
 func VerifC15HAR() {
 	framing := vf.Choice("framing", 3)
 	plain := vf.Bytes("body", vf.Choice("body-len", vf.Param("bodylens")))
-	enc := c15enc[vf.Choice("content-encoding", len(c15enc))]
-	ct := c15ct[vf.Choice("content-type", len(c15ct))]
+	enc := zzc15enc[vf.Choice("content-encoding", len(zzc15enc))]
+	ct := zzc15ct[vf.Choice("content-type", len(zzc15ct))]
 	trailers := framing == msg.FrameChunked && vf.Choice("trailers", 2) == 1
 	wire := plain
 	if strings.HasPrefix(ct, "multipart/") {
